@@ -69,7 +69,7 @@ def main():
             sh("cargo build --offline -q", cwd=SV)
             # some demos take the worktree as their only argument, others the binary (default ./target/debug/scrut)
             dtext = open(f"{out}/{demo}").read()
-            arg = SV if 'ROOT="${1:-' in dtext else (f"{SV}/target/debug/scrut" if 'SCRUT="${1:-' in dtext or 'BIN="${1:-' in dtext else "")
+            arg = SV if 'ROOT="${1:-' in dtext else (f"{SV}/target/debug/scrut" if 'SCRUT="${1:-' in dtext or 'BIN="${1:-' in dtext or 'SCRUT=${1:-' in dtext or 'BIN=${1:-' in dtext else "")
             code, o = sh(f"bash -c 'SCRUT_BIN={SV}/target/debug/scrut bash OUT/{demo} {arg} > /tmp/sv_demo.out 2>&1; echo EXIT=$?'; tail -15 /tmp/sv_demo.out", cwd=SV)
             ok = "EXIT=0" in o
             cmd = f"bash OUT/{demo}"
